@@ -265,9 +265,9 @@ func (s *Store) PickV2FC(rng *rand.Rand, ok func(types.FileContractID, types.V2F
 }
 
 // OrderedSC returns the live siacoin IDs in deterministic order.
-func (s *Store) OrderedSC() []types.SiacoinOutputID { return liveOrder(s.scOrder, s.SCEs) }
-func (s *Store) OrderedSF() []types.SiafundOutputID { return liveOrder(s.sfOrder, s.SFEs) }
-func (s *Store) OrderedFC() []types.FileContractID  { return liveOrder(s.fcOrder, s.FCEs) }
+func (s *Store) OrderedSC() []types.SiacoinOutputID  { return liveOrder(s.scOrder, s.SCEs) }
+func (s *Store) OrderedSF() []types.SiafundOutputID  { return liveOrder(s.sfOrder, s.SFEs) }
+func (s *Store) OrderedFC() []types.FileContractID   { return liveOrder(s.fcOrder, s.FCEs) }
 func (s *Store) OrderedV2FC() []types.FileContractID { return liveOrder(s.v2Order, s.V2FCEs) }
 
 func liveOrder[ID comparable, E any](order []ID, m map[ID]E) []ID {
